@@ -45,6 +45,12 @@ func WorkerMain(env *Env, eng Engine) int {
 				SaveCase(env.Out, c)
 			}
 		}
+		if c.PreludeStride > 0 && c.Run-c.PreludeStride >= 0 {
+			e2 := *env
+			e2.Seed, e2.Property, e2.J = c.Seed, c.Property, &Journal{}
+			fmt.Printf("prelude: run %d of seed %d\n", c.Run-c.PreludeStride, c.Seed)
+			eng.Run(&e2, c.Run-c.PreludeStride, NewResult(c.Property, 0))
+		}
 		sig, msg, trace := eng.Replay(env, c)
 		for _, l := range trace {
 			fmt.Println("  ", l)
